@@ -23,7 +23,7 @@ func TestProp(t *testing.T) {
 	r.SetRule("every case starts from a reference-produced ciphertext (etype x plaintext length 0..64 x 1 key quick, 0..100 x 4 keys thorough) and applies one transformation that is not the identity: " +
 		"(plus plaintexts of 4080, 4200 and 9000 bytes - thorough: also 4095..4097, 16500, 66000 - with seeded samples of the transformations); every API level (crypto.DecryptMessage, EType.DecryptMessage, crypto.DecryptEncPart); " +
 		"every single-bit flip of the whole ciphertext, every truncation length 0..n-1, 1/8/16 appended bytes, every swap of two adjacent cipher blocks, every other usage of the usage set " +
-		"(RFC 4757 aliases skipped for etype 23), 4 unrelated keys, keys of other etypes' lengths; expected outcome is always an error. distinct = (etype,len,key,transformation); all non-trivial")
+		"(RFC 4757 aliases skipped for etype 23), 4 unrelated keys, keys of other etypes' lengths, keys sharing a prefix with the real key (K plus 1..16 non-zero bytes, K filled up with non-zero bytes to 24/32/48 bytes, K cut by 1..8 bytes, K plus zero bytes - the zero cases are only counted for etypes 19, 20, 23 where HMAC zero-padding makes them the same key); expected outcome is always an error. distinct = (etype,len,key,transformation); all non-trivial")
 	r.Assume("a success that the reference decryptor also accepts (a real MAC collision, p <= 2^-96) is reported inconclusive, not violated")
 	nkeys, maxLen := 1, 64
 	if vh.Thorough() {
@@ -62,6 +62,7 @@ func TestProp(t *testing.T) {
 	r.Require("other_usage_rejected", 1000)
 	r.Require("other_key_rejected", 100)
 	r.Require("base_accepted", 300)
+	r.Require("related_key_rejected", 3000)
 }
 
 // base runs every transformation on one reference ciphertext. For plaintexts longer than 1000 bytes the bit flips, truncations,
@@ -253,6 +254,52 @@ func base(r *vh.Run, et int32, ki, n int) {
 			continue
 		}
 		try("keylen", fmt.Sprint(l), ct, types.EncryptionKey{KeyType: et, KeyValue: rnd.Bytes(l)}, usage, "other_keylen_rejected")
+	}
+	// keys that share a prefix with the real key: a longer or shorter byte string is a different key, whatever its first bytes are.
+	// HMAC pads its key with zero bytes (RFC 2104), so for the etypes whose derivation is an HMAC keyed with the protocol key
+	// (19, 20, 23) K||00..00 IS the same HMAC key, and so is K cut by trailing zero bytes: those are counted, not judged.
+	hmacKeyed := et == kcrypto.AES128SHA2 || et == kcrypto.AES256SHA2 || et == kcrypto.RC4
+	nonZero := func(l int) []byte {
+		b := rnd.Bytes(l)
+		for i := range b {
+			if b[i] == 0 {
+				b[i] = byte(1 + rnd.Intn(255))
+			}
+		}
+		return b
+	}
+	for x := 1; x <= 16; x++ {
+		if sparse && x%5 != 1 {
+			continue
+		}
+		try("key-extended", fmt.Sprint(x), ct, types.EncryptionKey{KeyType: et, KeyValue: append(append([]byte{}, key...), nonZero(x)...)}, usage, "related_key_rejected")
+	}
+	for _, l := range []int{24, 32, 48} {
+		if l > len(key) {
+			try("key-extended-to-size", fmt.Sprint(l), ct, types.EncryptionKey{KeyType: et, KeyValue: append(append([]byte{}, key...), nonZero(l-len(key))...)}, usage, "related_key_rejected")
+		}
+	}
+	for x := 1; x <= 8 && x < len(key); x++ {
+		if hmacKeyed && bytes.Equal(key[len(key)-x:], make([]byte, x)) {
+			r.Inc("observe_key_cut_by_zero_bytes_not_judged")
+			continue
+		}
+		try("key-truncated", fmt.Sprint(x), ct, types.EncryptionKey{KeyType: et, KeyValue: append([]byte{}, key[:len(key)-x]...)}, usage, "related_key_rejected")
+	}
+	for _, x := range []int{1, 8, 16} {
+		kz := types.EncryptionKey{KeyType: et, KeyValue: append(append([]byte{}, key...), make([]byte, x)...)}
+		if !hmacKeyed {
+			try("key-zero-extended", fmt.Sprint(x), ct, kz, usage, "related_key_rejected")
+			continue
+		}
+		var derr error
+		if p, _, _ := vh.Guard(func() { _, derr = crypto.DecryptMessage(append([]byte{}, ct...), kz, usage) }); p {
+			r.Inc("observe_key_zero_extended_panicked")
+		} else if derr == nil {
+			r.Inc("observe_key_zero_extended_accepted")
+		} else {
+			r.Inc("observe_key_zero_extended_rejected")
+		}
 	}
 	// right key bytes labelled with another etype of the same key length
 	for _, et2 := range kcrypto.Etypes {
